@@ -146,3 +146,16 @@ func Solve(cfg *SolverCfg, script string, tag string) *SolveResult {
 	}
 	return res
 }
+
+// SolveFirstOnly runs z3-new alone with the first-stage limit.
+func SolveFirstOnly(cfg *SolverCfg, script string) *SolveResult {
+	n := atomic.AddInt64(&queryCounter, 1)
+	file := filepath.Join(cfg.ScratchDir, fmt.Sprintf("s%06d.smt2", n))
+	if err := os.WriteFile(file, []byte(script), 0o644); err != nil {
+		return &SolveResult{Status: "error", Output: err.Error()}
+	}
+	defer os.Remove(file)
+	start := time.Now()
+	st, out := runOne(context.Background(), "z3-new", file, cfg.FirstS, cfg.Seed)
+	return &SolveResult{Status: st, Solver: "z3-new", Output: out, Ms: time.Since(start).Milliseconds(), All: map[string]string{"z3-new": st}}
+}
